@@ -255,3 +255,26 @@ func rewriteSched(fset *token.FileSet, f *ast.File) int {
 	}
 	return n + after - before
 }
+
+// rewriteSchedLib applies the lock shim and the access probes to one file of a
+// library package (no yield points: its locks are the scheduling points).
+func rewriteSchedLib(f *ast.File, structs map[string]bool) int {
+	before := stats["access_probes"] + stats["spawn_captures"]
+	n := rewriteSyncFields(f, structs)
+	ast.Inspect(f, func(nd ast.Node) bool {
+		switch v := nd.(type) {
+		case *ast.BlockStmt:
+			v.List = instrumentList(v.List)
+		case *ast.CaseClause:
+			v.Body = instrumentList(v.Body)
+		case *ast.CommClause:
+			v.Body = instrumentList(v.Body)
+		}
+		return true
+	})
+	after := stats["access_probes"] + stats["spawn_captures"]
+	if after > before {
+		addImport(f, "vfsched", schedImport)
+	}
+	return n + after - before
+}
